@@ -531,6 +531,12 @@ func (b *builder) build(s *Spec, label string) gen.V {
 		f["Default"] = gen.Any(gen.TAnySlice(), g.Anys(gen.Any(gen.TString(), absint.HoleStr(b.atom(s, "RawStr", "default[0]", false)))))
 	case "emptyslice":
 		f["Default"] = gen.Any(gen.TAnySlice(), g.Anys())
+	case "mapmap":
+		// a map default whose value is itself an object: {"<key>": {"<inner key>": "<text>"}}
+		k := absint.HoleStr(b.atom(s, "RawStr", "default key", false))
+		ik := absint.HoleStr(b.atom(s, "RawStr", "default inner key", false))
+		iv := gen.Any(gen.TString(), absint.HoleStr(b.atom(s, "RawStr", "default value", false)))
+		f["Default"] = gen.Any(gen.TAnyMap(), g.Map([]gen.V{k}, []gen.V{gen.Any(gen.TAnyMap(), g.Map([]gen.V{ik}, []gen.V{iv}))}))
 	case "map":
 		k := absint.HoleStr(b.atom(s, "RawStr", "default key", false))
 		v := gen.Any(gen.TString(), absint.HoleStr(b.atom(s, "RawStr", "default value", false)))
